@@ -526,7 +526,7 @@ func c07Cases(tier string) []c07Case {
 		add(&RIDL{Name: "a.b", Members: []RMember{{Kind: "method", Name: "M", In: TStruct(F(fn, T("int")), F("x", T("int"))), Out: TStruct(F("x", T("int")), F(fn, T("int")))}}}, false, "fieldname")
 	}
 	// (d) documentation texts, on the interface and on every kind of member
-	docs := [][]string{{"plain"}, {"a `backtick` here"}, {"``"}, {"ends with `"}, {"*/ closes a comment"}, {"\"quoted\" and \\ backslash"}, {"mentions fmt.Sprintf only"}, {"mentions json.RawMessage only"}, {"mentions context.Context only"}, {"@IMPORTS@"}, {"two", "lines"}, {"", "blank first"}, {"é😀"}, {"\tTabbed"}, {"load in %"}, {"100% sure"}, {`"%d" and %s and %v`}, {"%%"}, {"%!x(MISSING)"}, {"$1 ${name} \\1"}, {"{{.Name}}"}}
+	docs := [][]string{{"plain"}, {"a `backtick` here"}, {"``"}, {"ends with `"}, {"*/ closes a comment"}, {"\"quoted\" and \\ backslash"}, {"mentions fmt.Sprintf only"}, {"mentions json.RawMessage only"}, {"mentions context.Context only"}, {"@IMPORTS@"}, {"two", "lines"}, {"", "blank first"}, {"blank last", ""}, {"a", "", "b", ""}, {"", ""}, {"é😀"}, {"\tTabbed"}, {"load in %"}, {"100% sure"}, {`"%d" and %s and %v`}, {"%%"}, {"%!x(MISSING)"}, {"$1 ${name} \\1"}, {"{{.Name}}"}}
 	for _, doc := range docs {
 		plain := []RMember{{Kind: "type", Name: "T0", Type: TStruct(F("x", T("int")))}, {Kind: "method", Name: "M", In: TStruct(), Out: TStruct()}, {Kind: "error", Name: "E", Type: TStruct(F("r", T("string")))}}
 		add(&RIDL{Name: "a.b", Doc: doc, Members: plain}, true)
